@@ -25,8 +25,8 @@ func (t *tagger) next() int { t.n++; return t.n }
 var cts = []string{"application/json", "application/json; charset=utf-8", "application/problem+json", "text/xml",
 	"application/xml; charset=utf-8", "application/atom+xml", "text/plain", "text/html", "", "application/octet-stream", "application/xml+json"}
 
-var jsonBodies = []string{`{"a":1,"msg":"m","code":7}`, `{"a":41,"msg":"hello"}`, `{"a":"x","msg":"m"}`, `{"msg":5}`, `{"a":`, `not json`, ``, `null`, `[]`, ` `, `{}`}
-var xmlBodies = []string{`<r><a>1</a><msg>m</msg><code>7</code></r>`, `<r><a>9</a></r>`, `<r><a>1</a>`, `<r><a>x</a></r>`, ``, `plain`, `<r/>`}
+var jsonBodies = []string{`{"msg":"m","code":"x"}`, `{"a":1,"msg":"m","code":7}`, `{"a":41,"msg":"hello"}`, `{"a":"x","msg":"m"}`, `{"msg":5}`, `{"a":`, `not json`, ``, `null`, `[]`, ` `, `{}`}
+var xmlBodies = []string{`<r><msg>m</msg><code>x</code></r>`, `<r><a>1</a><msg>m</msg><code>7</code></r>`, `<r><a>9</a></r>`, `<r><a>1</a>`, `<r><a>x</a></r>`, ``, `plain`, `<r/>`}
 
 func ctKind(ct string) string {
 	switch {
@@ -142,7 +142,7 @@ func restrictForEntry(p *progSpec) {
 	p.Attempts = p.Attempts[:1]
 	at := &p.Attempts[0]
 	at.Req, at.Conds, at.Ctx, at.SleepCancel, at.Bi, at.GetBody = nil, nil, "", false, 0, 0
-	at.T.B.WriteErr = 0
+	at.T.B.WriteErr, at.T.B.CloseErr = 0, 0
 	for i := range at.Cli {
 		if at.Cli[i].Digest { // SetCommonDigestAuth is fine at package level too
 			continue
@@ -198,10 +198,23 @@ func genBinding(rng *hk.Rand, status int) *progSpec {
 	if rng.Chance(6) && t.B.Body != "" && t.B.ReadErr == 0 {
 		t.B.Cut = hk.Pick(rng, []string{"length", "chunked"})
 	}
-	if p.AutoRead == 0 && rng.Chance(12) {
+	if p.AutoRead == 0 && rng.Chance(14) {
 		p.Save = true
-		if rng.Chance(25) && t.B.Body != "" && t.B.ReadErr == 0 && t.B.Cut == "" {
+		p.SaveKind = hk.Pick(rng, []string{"", "closer", "closer", "file"})
+		if p.SaveKind != "file" && rng.Chance(25) && t.B.Body != "" && t.B.ReadErr == 0 && t.B.Cut == "" {
 			t.B.WriteErr = 850
+		} else if p.SaveKind == "closer" && rng.Chance(30) {
+			t.B.CloseErr = 860 // (alone, or after a body that breaks off mid-copy: the copy error must stand)
+		}
+	}
+	if rng.Chance(6) { // one target's decoder fails, the others fit
+		p.TError, p.TCommon = true, true
+		if rng.Bool() {
+			t.B.CT, t.B.Body = "application/json", hk.Pick(rng, []string{`{"msg":"m","code":"x"}`, `{"msg":"m","a":"x"}`})
+		} else {
+			p.UmCustom = true
+			t.B.UmErr, t.B.UmOnly = 700, hk.Pick(rng, []string{"req", "com", "res"})
+			t.B.Body += "  "
 		}
 	}
 	if p.OnError && rng.Chance(30) {
@@ -391,9 +404,13 @@ func genPipeline(rng *hk.Rand) *progSpec {
 	}
 	if rng.Chance(12) && p.AutoRead == 0 {
 		p.Save = true
+		p.SaveKind = hk.Pick(rng, []string{"", "closer", "closer", "file"})
 		for a := range p.Attempts {
-			if rng.Chance(20) && p.Attempts[a].T.B.Body != "" && p.Attempts[a].T.B.ReadErr == 0 && p.Attempts[a].T.B.Cut == "" {
-				p.Attempts[a].T.B.WriteErr = tg.next()
+			b := &p.Attempts[a].T.B
+			if p.SaveKind != "file" && rng.Chance(20) && b.Body != "" && b.ReadErr == 0 && b.Cut == "" {
+				b.WriteErr = tg.next()
+			} else if p.SaveKind == "closer" && rng.Chance(25) {
+				b.CloseErr = tg.next()
 			}
 		}
 	}
@@ -413,6 +430,7 @@ func genPipeline(rng *hk.Rand) *progSpec {
 		for a := range p.Attempts {
 			if regime != 0 && rng.Chance(25) && p.Attempts[a].T.Fail == 0 {
 				p.Attempts[a].T.B.UmErr = tg.next()
+				p.Attempts[a].T.B.UmOnly = hk.Pick(rng, []string{"", "", "res", "req", "com"})
 				p.Attempts[a].T.B.Body += strings.Repeat(" ", 7*(a+1)) // unique key for the custom functions' table
 			}
 		}
@@ -547,6 +565,9 @@ func runC18(r *hk.Run) {
 	r.Rule = "programs = entry point (Do/Send/Get/Post/MustGet/MustPost) x targets {success, error, common error type} x custom state checker x auto-read (on / off on client / off on request) x error hook x retry option x per-attempt scripts for every stage (request middleware, marshal function, wrapping round-trippers, GetBody, transport answer = failure or status 100..599 x content type x body x read error, client- and request-level response middleware incl. digest re-send, retry condition). Non-trivial: a target is configured, or more than one stage ran, or the call ended in error. Distinct by the program's JSON."
 	rng := hk.NewRand(r.Seed)
 	loadEntries(r)
+	if r.OutDir != "" {
+		dlDir = r.OutDir
+	}
 
 	if r.Replay != "" {
 		b, err := os.ReadFile(r.Replay)
@@ -605,7 +626,14 @@ func runC18(r *hk.Run) {
 		if d, _ := digestOf(p.Attempts[0]); d == nil && i%3 == 0 && len(p.Attempts) == 1 && p.Attempts[0].T.B.Body != "" && p.Attempts[0].T.B.ReadErr == 0 && p.Attempts[0].T.Status >= 200 {
 			p.Attempts[0].T.B.Cut = hk.Pick(rng, []string{"length", "chunked"}) // the body is cut on the wire
 			p.Transformer = p.Transformer || rng.Bool()
-			p.Attempts[0].T.B.WriteErr = 0
+			p.Attempts[0].T.B.WriteErr, p.Attempts[0].T.B.CloseErr = 0, 0
+			if rng.Bool() { // ... while being downloaded into a file / a closing writer
+				p.Save, p.AutoRead = true, 0
+				p.SaveKind = hk.Pick(rng, []string{"file", "file", "closer"})
+				if rng.Bool() {
+					p.TResult, p.TError, p.TCommon = false, false, false
+				}
+			}
 		}
 		if !realisable(p) {
 			continue
@@ -621,7 +649,7 @@ func realisable(p *progSpec) bool {
 		return false
 	}
 	ok := func(t toutSpec) bool {
-		if t.Fail != 0 || t.B.ReadErr != 0 || t.B.WriteErr != 0 {
+		if t.Fail != 0 || t.B.ReadErr != 0 || t.B.WriteErr != 0 || t.B.CloseErr != 0 || t.B.UmErr != 0 {
 			return false
 		}
 		if t.B.Cut != "" {
